@@ -16,6 +16,11 @@ Clauses (tag [C14]):
 * ORDER ordered messages are returned in another order than written;
 * EOF   a reader object is given EOF although a message its partner wrote before closing was not returned to it,
         or although no partner was ever closed by its application;
+* REMEMBER (white-box `rs remember` lines, the bookkeeping of performed request numbers): a number remembered and
+        at most 1024 behind the serial-number maximum of everything remembered is reported as forgotten, a number never
+        remembered is reported as present, or `newest` is not that maximum;
+* SHIFT (tag [C16,C14]) the same calls with every number shifted by a constant give another size / answer, or a
+        `newest` that is not the shifted one;
 * SEQ   a first transmission carries a sequence number other than the position of the message among the messages
         of its writer object (so every incarnation starts at 0 on the wire and never rewinds).
 -/
@@ -38,7 +43,15 @@ structure St where
   gen : List (Nat × Nat) := []           -- sid ↦ current incarnation number
   bad : List Nat := []                   -- identifiers re-opened dishonestly
   next : List Nat := [0, 0]              -- per endpoint: next TSN never sent yet
+  shift : Nat := 0                       -- constant of the shift pair (`rs shift d`)
+  rem : List (List Nat) := [[], []]      -- per endpoint: numbers handed to rememberPerformedReset
+  mx : List Nat := [0, 0]                -- per endpoint: their serial-number maximum
+  last0 : List String := []              -- result of the last `remember 0` (reference run of the shift pair)
   deriving Inhabited
+
+def two32 : Nat := 4294967296
+/-- forward distance from a to b in the 32-bit serial number space -/
+def dist32 (a b : Nat) : Nat := (b + two32 - a % two32) % two32
 
 def genOf (st : St) (sid : Nat) : Nat := ((st.gen.find? (·.1 == sid)).map (·.2)).getD 0
 
@@ -187,6 +200,28 @@ def step (st : St) (op impl : List String) : St × List String :=
                 | none => pure ()
           | _ => pure ()
       return ({ st with next := st.next.set x nxt }, out)
+  | ["shift", d] => ({ st with shift := pNat d }, [])
+  | ["remember", x, rsn, q] =>
+    let x := pNat x
+    let rsn := pNat rsn
+    let q := pNat q
+    let old := st.rem.getD x []
+    let mx0 := st.mx.getD x 0
+    let mx := if old.isEmpty || (0 < dist32 mx0 rsn && dist32 mx0 rsn < 2147483648) then rsn else mx0
+    let rem := if old.contains rsn then old else rsn :: old
+    let st := { st with rem := st.rem.set x rem, mx := st.mx.set x mx }
+    let newest := pNat (kv impl "newest")
+    let has := kv impl "has" == "1"
+    let v1 := if newest != mx then [s!"[C14] REMEMBER: endpoint {x}: newest={newest} after remembering {rsn}, the serial-number maximum of what was remembered is {mx}"] else []
+    let v2 := if rem.contains q && dist32 q mx ≤ 1024 && !has then
+        [s!"[C14] REMEMBER: endpoint {x}: request number {q} was performed and is only {dist32 q mx} behind the newest ({mx}) but is no longer remembered: its duplicate would be performed again"] else []
+    let v3 := if !rem.contains q && has then [s!"[C14] REMEMBER: endpoint {x}: request number {q} is reported as performed but never was"] else []
+    let (st, v4) := if x == 0 then ({ st with last0 := impl }, []) else
+      let n0 := pNat (kv st.last0 "newest")
+      let ok := kv st.last0 "size" == kv impl "size" && kv st.last0 "has" == kv impl "has" && (n0 + st.shift) % two32 == newest
+      (st, if ok || st.last0.isEmpty then [] else
+        [s!"[C16,C14] SHIFT: the same rememberPerformedReset calls shifted by {st.shift} give {" ".intercalate impl} instead of the shifted {" ".intercalate st.last0}"])
+    (st, v1 ++ v2 ++ v3 ++ v4)
   | "ora" :: _ => (st, [])
   | "st" :: _ => (st, [])
   | _ => (syncObjs st impl, [])
